@@ -90,6 +90,10 @@ pub struct Shape {
     /// struct fields inside the code the derive generates (normalized_time, frame_index, target, ...)
     #[serde(default)]
     pub names: u8,
+    /// the (local) struct has a hand-written `impl Default` with non-zero values instead of the derive:
+    /// the implicit 0 % value of a property is still the field TYPE's default
+    #[serde(default)]
+    pub manual_default: bool,
     pub sets: Vec<KfSet>,
 }
 
@@ -175,7 +179,7 @@ fn shape_strategy() -> impl Strategy<Value = Shape> {
                 f.decorated = false;
             }
         }
-        let shape0 = Shape { fields: fields.clone(), struct_vis, remote, nested, names, sets: vec![] };
+        let shape0 = Shape { fields: fields.clone(), struct_vis, remote, nested, names, manual_default: names == 0 && !remote && fields.len() % 3 == 1, sets: vec![] };
         let anim = shape0.animated();
         let tys: Vec<Ty> = fields.iter().map(|f| f.ty).collect();
         let anim_tys: Vec<Ty> = anim.iter().map(|i| tys[*i]).collect();
@@ -234,11 +238,15 @@ fn shape_defs(sh: &Shape, i: usize) -> String {
         }
         s += "    }\n";
     } else {
-        s += &format!("    #[derive(Animate, Clone, Debug, Default, PartialEq)]\n    {}struct S{i} {{\n", sh.struct_vis.text());
+        s += &format!("    #[derive(Animate, Clone, Debug, {}PartialEq)]\n    {}struct S{i} {{\n", if sh.manual_default { "" } else { "Default, " }, sh.struct_vis.text());
         for (k, f) in sh.fields.iter().enumerate() {
             s += &field_decl(f, k, true, false);
         }
         s += &format!("    }}\n    #[allow(dead_code)] type T{i} = S{i};\n");
+        if sh.manual_default {
+            let inits: String = sh.fields.iter().enumerate().map(|(k, f)| format!("x{k}: {} as {}", 3 + k, f.ty.name())).collect::<Vec<_>>().join(", ");
+            s += &format!("    impl Default for S{i} {{ fn default() -> Self {{ S{i} {{ {inits} }} }} }}\n");
+        }
     }
     s
 }
@@ -285,6 +293,19 @@ fn program(shapes: &[Shape]) -> String {
         src += &format!("            let p = set[\"from_pos\"].as_f64().unwrap() as f32;\n            let t1 = TimelineBuilder::build(S{i}::timeline().duration_seconds(1.0).keyframe(S{i}::keyframe_from(&v, p)));\n            let mut explicit = S{i}::keyframe(p);\n");
         for fi in &anim {
             src += &format!("            explicit = explicit.x{fi}(v.x{fi});\n");
+        }
+        // a setter called after keyframe_from replaces the copied value of that field (and only that)
+        if let Some(f0) = anim.first() {
+            let ty = sh.fields[*f0].ty.name();
+            src += &format!("            {{ let w = (v.x{f0} as f64 * 0.5 + 1.0) as {ty}; let ta = TimelineBuilder::build(S{i}::timeline().duration_seconds(1.0).keyframe(S{i}::keyframe_from(&v, p).x{f0}(w))); let mut e2 = S{i}::keyframe(p);\n");
+            for fi in &anim {
+                if fi == f0 {
+                    src += &format!("              e2 = e2.x{fi}(w);\n");
+                } else {
+                    src += &format!("              e2 = e2.x{fi}(v.x{fi});\n");
+                }
+            }
+            src += &format!("              let tb = TimelineBuilder::build(S{i}::timeline().duration_seconds(1.0).keyframe(e2)); for q in [0.0f32, 0.5, 1.0, p] {{ let (mut a, mut b2) = (fresh(), fresh()); ta.update(&mut a, q); tb.update(&mut b2, q); assert!(dump(&a).iter().zip(dump(&b2).iter()).all(|(x, y)| x.to_bits() == y.to_bits()), \"keyframe_from(&v, p).x{f0}(w) differs from the keyframe with the same fields set explicitly at {{q}}: {{:?}} vs {{:?}}\", dump(&a), dump(&b2)); }} }}\n");
         }
         src += &format!("            let t2 = TimelineBuilder::build(S{i}::timeline().duration_seconds(1.0).keyframe(explicit));\n            let mut kf_obs = vec![];\n            for q in [0.0f32, 0.25, 0.5, 0.75, 1.0, p] {{\n                let (mut a, mut b2) = (fresh(), fresh());\n                t1.update(&mut a, q);\n                t2.update(&mut b2, q);\n                kf_obs.push(json!([q, dump(&a), dump(&b2)]));\n            }}\n            out.push(json!({{\"meta\": meta, \"obs\": obs, \"kf_from\": kf_obs}}));\n        }}\n        json!(out)\n    }}\n}}\n\n");
         let renamed = rename_fields(&src[chunk_start..], sh.names);
